@@ -106,8 +106,10 @@ Theorem C05_fragment_codec : forall seq fe bytes,
 Proof. exact dec_enc_fragment. Qed.
 Print Assumptions C05_fragment_codec.
 
-(* C05_roundtrip end to end on the real byte string of one fragment (fields within their wire widths:
-   frag_codec_wf, which also excludes the truns DecodeTrun refuses, see C05_optimized_trun_refuted) *)
+(* C05_roundtrip end to end on the real byte string of one fragment (fields within their wire widths: frag_width_wf).
+   No bound on the number of samples of a trun: that DecodeTrun's count guard ("sampleCount is big but no sample data
+   present") accepts every trun Fragment.Encode writes for such a history is proved (C05_optimized_trun_decodes, after
+   fix 6c7a902; before it the statement needed the guard, see C05_optimized_trun_pinned_refuted) *)
 Theorem C05_roundtrip_bytes : forall tracks post ops cs fr opt fe seq bytes pos0 tx,
   NoDup tracks -> N.of_nat (length ops) < 4294967296 -> forallb is_full_to ops = true ->
   Forall (fun o => sized_f (op_full o)) ops ->
@@ -116,7 +118,7 @@ Theorem C05_roundtrip_bytes : forall tracks post ops cs fr opt fe seq bytes pos0
   moof_size fe + md_header_size (fr_mdat fe) + lenN (md_data (fr_mdat fr)) < 2147483648 ->
   pos0 < 4611686018427387904 ->
   consistent (added_fulls tracks (tx_track tx) ops) ->
-  frag_codec_wf fe = true -> seq < 4294967296 ->
+  frag_width_wf fe = true -> seq < 4294967296 ->
   enc_fragment seq fe = Ok bytes ->
   exists m payload d,
     dec_top (length bytes) bytes = Ok [BMoof (moof_size fe) m; BMdat (md_header_size (fr_mdat fe)) payload] /\
@@ -125,14 +127,29 @@ Theorem C05_roundtrip_bytes : forall tracks post ops cs fr opt fe seq bytes pos0
 Proof. exact roundtrip_bytes. Qed.
 Print Assumptions C05_roundtrip_bytes.
 
-(* the guard in frag_codec_wf / trun_wf is needed: with optimisation, more than 1024 samples of equal duration,
-   size and flags and zero composition offsets are written as a trun that DecodeTrun refuses (known finding C05-F7) *)
-Theorem C05_optimized_trun_refuted : exists tf tr tf' tr',
+(* OptimizeTfhdTrun never writes a trun DecodeTrun refuses: for ANY trun carrying the four per-sample fields (every
+   trun CreateTrun makes) and ANY number of samples, the bytes of the optimised trun decode to its wire view *)
+Theorem C05_optimized_trun_decodes : forall tf tr tf' tr' d,
+  all_present tr = true -> optimize tf tr = Ok (tf', tr') -> trun_fields_wf (tr_with_doff tr' d) = true ->
+  dec_trun (trun_size (tr_with_doff tr' d)) (enc_trun_body (tr_with_doff tr' d)) = Ok (wire_trun (tr_with_doff tr' d)).
+Proof. exact optimized_trun_decodes. Qed.
+Print Assumptions C05_optimized_trun_decodes.
+
+(* ... which the text before fix 6c7a902 (optimize_f7) did: more than 1024 samples of equal duration, size and flags and
+   zero composition offsets were written as a trun that DecodeTrun refuses (finding C05-F7, fixed) *)
+Theorem C05_optimized_trun_pinned_refuted : exists tf tr tf' tr',
   all_present tr = true /\ forallb sample_wf (tr_samples tr) = true /\
-  optimize tf tr = Ok (tf', tr') /\
+  optimize_f7 tf tr = Ok (tf', tr') /\
   dec_trun (trun_size (tr_with_doff tr' 100)) (enc_trun_body (tr_with_doff tr' 100)) = Err.
 Proof. exact big_uniform_refuted. Qed.
-Print Assumptions C05_optimized_trun_refuted.
+Print Assumptions C05_optimized_trun_pinned_refuted.
+
+(* the same 1025 samples with the repaired text: the composition-offset field stays, the bytes decode *)
+Example C05_optimized_trun_decodes_ex :
+  let tr := mkTrun 1 3841 0 0 (repeat (mkSample 16842752 10 1 0) 1025) 0 in
+  exists tf' tr', all_present tr = true /\ optimize (create_tfhd 1) tr = Ok (tf', tr') /\ tr_flags tr' = 2049 /\
+                  trun_fields_wf (tr_with_doff tr' 100) = true.
+Proof. cbv zeta. eexists; eexists. split; [reflexivity|]. split; [vm_compute; reflexivity|]. split; vm_compute; reflexivity. Qed.
 
 (* hypotheses of C05_roundtrip_bytes are satisfiable: two tracks, three runs, optimisation on, a decode time that
    needs tfdt version 1; the bytes are computed and decoded by computation as well *)
@@ -141,7 +158,7 @@ Example C05_roundtrip_bytes_ex :
   let ops := [OFullTo 2 (s 1) 4294967296 [1]; OFullTo 2 (s 2) 4294967306 [2;3]; OFullTo 1 (s 1) 0 [4]; OFullTo 2 (s 1) 4294967316 [5]] in
   exists fr fe bytes,
     run_ops (with_extras (create_multi [1; 2]) 0 0 0 []) ops = ([COk; COk; COk; COk], Some fr) /\
-    encode_frag true fr = Ok fe /\ frag_codec_wf fe = true /\ enc_fragment 7 fe = Ok bytes /\
+    encode_frag true fr = Ok fe /\ frag_width_wf fe = true /\ enc_fragment 7 fe = Ok bytes /\
     length bytes = 245%nat /\
     exists m payload, dec_top (length bytes) bytes = Ok [BMoof (moof_size fe) m; BMdat 8 payload] /\ payload = [1;2;3;4;5] /\
                       dm_seq m = Some 7.
